@@ -10,6 +10,7 @@ from ..domains.arrays import ArrayDomain, Vec3
 from ..domains.frames import FramesDomain, Rot
 from ..domains.units import PX, UnitsDomain
 from ..repo import calls_in, dotted, norm_src, walk_no_nested
+from ..match import Matcher, src as msrc
 from .common import kwarg, need_funcs
 from .C03 import local_assignments
 
@@ -98,9 +99,12 @@ def placement_clause(model, rep, funcs):
         it = Interp(model, udom, depth=0)
         seen = []
 
+        pm = Matcher(f).find("$ip = $pos.astype(np.int32)")
+        pname = msrc(pm[0][1]["pos"][1]) if pm and isinstance(pm[0][1]["pos"][1], ast.Name) else None
+
         def on_stmt(interp, fn, st, env):
-            if fn is f and isinstance(st, ast.Assign) and norm_src(st.targets[0]) == "intpos":
-                seen.append(env.get("pos"))
+            if fn is f and pm and st is pm[0][0]:
+                seen.append(env.get(pname))
 
         it.on_stmt.append(on_stmt)
         it.run(f)
@@ -130,7 +134,8 @@ def placement_clause(model, rep, funcs):
         if got:
             args, env = got[-1]
             oc = dom.vec(args[2]) if len(args) > 2 else None
-            imin = dom.vec(env.get("int_min_"))
+            im = Matcher(g).find("$lo = $m.astype(np.int32)")
+            imin = dom.vec(env.get(msrc(im[0][1]["lo"][1]))) if im else None
             if oc and imin and len(oc) == 3 and len(imin) == 2:
                 ok = True
                 det = ""
@@ -160,18 +165,13 @@ def frames_clause(model, rep, funcs):
                stmt="def _prep_iterators rotation")
     g = funcs.get(S + "_compose_affine_matrices")
     if g is not None:
-        s = norm_src(g.node)
         rep.instance("F.sim", g.loc())
-        lits = [c for c in ast.walk(g.node) if isinstance(c, ast.Call) and (dotted(c.func) or "").endswith("array") and c.args and isinstance(c.args[0], ast.List)
-                and len(c.args[0].elts) == 4]
-        ok = False
-        det = ""
-        if lits:
-            rows = [[norm_src(e) for e in r.elts] for r in lits[0].args[0].elts if isinstance(r, ast.List)]
-            ok = rows == [["1.0", "0.0", "0.0", "dz"], ["0.0", "1.0", "0.0", "dy"], ["0.0", "0.0", "1.0", "dx"], ["0.0", "0.0", "0.0", "1.0"]]
-            det = f"T0 rows {rows}"
-        ok = ok and "translation_1[:, :3, 3] = -output_center" in s and "rot_mtx[:, :3, :3] = rotator.as_matrix()" in s and \
-            "np.einsum('ij,njk,nkl->nil', translation_0, rot_mtx, translation_1)" in s and "dz, dy, dx = center" in s
+        ok, det = Matcher(g).all_of(["$dz, $dy, $dx = center",
+                                     "$t0 = np.array([[1.0, 0.0, 0.0, $dz], [0.0, 1.0, 0.0, $dy], [0.0, 0.0, 1.0, $dx], [0.0, 0.0, 0.0, 1.0]], ...)",
+                                     "$t1 = _eyes(len(rotator))", "$t1[:, :3, 3] = -output_center", "$r = _eyes(len(rotator))", "$r[:, :3, :3] = rotator.as_matrix()",
+                                     "return np.einsum('ij,njk,nkl->nil', $t0, $r, $t1)"])
+        ey = model.func(S + "_eyes")
+        ok = ok and Matcher(ey).has("return np.stack([np.eye(4, ...)] * n, axis=0)")
         rep.ob("F", g.anchor, "matrix is T(+center) @ R @ T(-output_center) for every molecule (x_in = center + R (x_out - output_center))", ok, det, node=g.node,
                fn=g, clause="2 frames", stmt="def _compose_affine_matrices")
     h = funcs.get(S + "_simulate_projection_one")
@@ -221,13 +221,16 @@ def tasks_clause(model, rep, funcs):
         if f is None:
             continue
         rep.instance("O.sim", f.loc())
-        inner = [lp for lp in ast.walk(f.node) if isinstance(lp, ast.For) and isinstance(lp.iter, ast.Call) and dotted(lp.iter.func) == "enumerate" and
-                 norm_src(lp.iter.args[0]) == "coords"]
-        ok = len(inner) == 1
+        M = Matcher(f)
+        b: dict = {}
+        ok, why = M.all_of(["for $mol, $image in self._components.values():\n    ...", "$ps = ($mol.pos - $rc) / self.scale",
+                            "$coords = np.stack(($yc, $xc), axis=1)", "for $i, $yx in enumerate($coords):\n    ..."], b)
         if ok:
-            idx = norm_src(inner[0].target.elts[0])
-            adds = [c for c in ast.walk(inner[0]) if isinstance(c, ast.Call) and isinstance(c.func, ast.Attribute) and c.func.attr == "add_task"]
-            ok = len(adds) == 1 and f"mol.rotator[{idx}]" in norm_src(adds[0])
+            inner = M.find("for $i, $yx in enumerate($coords):\n    ...", b)[0][0]
+            adds = [c for c in ast.walk(inner) if isinstance(c, ast.Call) and isinstance(c.func, ast.Attribute) and c.func.attr == "add_task"]
+            ok = len(adds) == 1 and bool(M.find("$pool.add_task($yx, $$shape, $$img, $mol.rotator[$i], ...)", b, within=inner))
+            # every row of coords is one molecule: columns are the y and x projections of the scaled positions
+            ok = ok and M.has("$yc = $ps.dot($$ey) + $$cy", b) and M.has("$xc = $ps.dot($$ex) + $$cx", b)
         rep.ob("O", f.anchor, "one task per molecule, position and rotation taken at the same index", ok, "", node=f.node, fn=f,
                clause="3 one task per molecule", stmt=f"def {name} tasks")
 
@@ -239,30 +242,28 @@ def accumulation_clause(model, rep, funcs):
         if f is None:
             continue
         rep.instance("S20", f.loc())
-        assigns = local_assignments(f)
-        init = assigns.get(buf, [])
-        ok_init = len(init) == 1 and isinstance(init[0], ast.Call) and (dotted(init[0].func) or "").endswith("zeros")
-        loops = [lp for lp in walk_no_nested(f.node) if isinstance(lp, ast.For) and norm_src(lp.iter) == "results"]
-        ok = ok_init and len(loops) == 1
-        det = f"buffer init: {norm_src(init[0])[:40] if init else None}"
-        if ok:
-            lp = loops[0]
-            upd = [n for n in ast.walk(lp) if isinstance(n, (ast.AugAssign, ast.Assign)) and buf in norm_src(n.targets[0] if isinstance(n, ast.Assign) else n.target)]
-            sl, frag = (norm_src(e) for e in lp.target.elts) if isinstance(lp.target, ast.Tuple) and len(lp.target.elts) == 2 else (None, None)
-            ok = len(upd) == 1 and isinstance(upd[0], ast.AugAssign) and isinstance(upd[0].op, ast.Add) and norm_src(upd[0].target) == f"{buf}[{sl}]" and \
-                norm_src(upd[0].value) == frag
-            guard = [g for g in ast.walk(lp) if isinstance(g, ast.If) and norm_src(g.test) == f"{frag} is not None"]
-            ok = ok and len(guard) == 1
-            det += f"; update: {norm_src(upd[0])[:60] if upd else None}"
-            if upd and isinstance(upd[0], ast.Assign):
-                det += " (overwrites instead of accumulating: overlapping molecules erase each other, result depends on task order)"
+        M = Matcher(f)
+        b = {}
+        ok, det = M.all_of(["$buf = np.zeros(...)", "$res = $pool.compute()", "for $sl, $frag in $res:\n    if $frag is not None:\n        $buf[$sl] += $frag",
+                            "return $buf"], b)
+        if not ok:
+            over = M.find("for $sl, $frag in $res:\n    if $frag is not None:\n        $buf[$sl] = $frag")
+            if over:
+                det = (f"`{norm_src(over[0][0].body[0].body[0])}` overwrites instead of accumulating: overlapping molecules erase each other, result depends on task order")
+        else:
+            # nothing else writes the buffer
+            stores = [n for n in walk_no_nested(f.node) if isinstance(n, (ast.Assign, ast.AugAssign)) and
+                      any(isinstance(t, ast.Subscript) and norm_src(t.value) == msrc(b["buf"][1]) for t in (n.targets if isinstance(n, ast.Assign) else [n.target]))]
+            if len(stores) != 1:
+                ok, det = False, f"{len(stores)} stores into the result buffer"
         rep.ob("S20", f.anchor, "fragments are accumulated with `buffer[slice] += fragment` into a zero-initialised buffer (additive, order independent)", ok, det,
                node=f.node, fn=f, clause="4 accumulation", stmt=f"def {name} accumulate")
     f = funcs.get(S + "_simulate_2d_one")
     if f is not None:
         s = norm_src(f.node)
         rep.instance("S20", f.loc())
-        ok = "np.sum(transformed[sl_src], axis=0)" in s and "return (sl_dst[1:], projected)" in s
+        ok = Matcher(f).all_of(["$src, $dst = _prep_slices(start, stop, shape, img.shape)", "$t = affine_transform(img, mtx, ...)",
+                                "$p = np.sum($t[$src], axis=0)", "return $dst[1:], $p"])[0]
         rep.ob("S20", f.anchor, "the 2-D worker sums the clipped fragment along z and drops the z slice", ok, "", node=f.node, fn=f, clause="4 accumulation",
                stmt="def _simulate_2d_one")
     for name in ("_simulate_one", "_simulate_color_one", "_simulate_2d_one"):
@@ -283,9 +284,11 @@ def clipping_clause(model, rep, funcs):
         return
     s = norm_src(f.node)
     rep.instance("A.clip", f.loc())
-    ok = "_utils.make_slice_and_pad(s, e, size)" in s and "sl_src_list.append(slice(s0, tsize - s1))" in s and "s0, s1 = _pads" in s and "sl_dst_list.append(_sl)" in s \
-        and "zip(start, stop, tomogram_shape, template_shape)" in s
-    rep.ob("A", f.anchor, "clipping: destination slice from make_slice_and_pad, source slice [pad_before : template_size - pad_after]", ok, "", node=f.node, fn=f,
+    ok, why = Matcher(f).all_of(["for $s, $e, $size, $tsize in zip(start, stop, tomogram_shape, template_shape):\n    ...",
+                                 "$sl, $pads, $oob = _utils.make_slice_and_pad($s, $e, $size)", "$dl.append($sl)", "$s0, $s1 = $pads",
+                                 "if $oob:\n    ...\nelse:\n    $srcl.append(slice(None))", "$srcl.append(slice($s0, $tsize - $s1))",
+                                 "$src = tuple($srcl)", "$dst = tuple($dl)", "return $src, $dst"])
+    rep.ob("A", f.anchor, "clipping: destination slice from make_slice_and_pad, source slice [pad_before : template_size - pad_after]", ok, why, node=f.node, fn=f,
            clause="5 clipping", stmt="def _prep_slices")
     hs = [h for n in walk_no_nested(f.node) if isinstance(n, ast.Try) for h in n.handlers]
     ok2 = len(hs) == 1 and norm_src(hs[0].type) in ("ValueError", "_utils.SubvolumeOutOfBoundError", "SubvolumeOutOfBoundError") and \
